@@ -482,6 +482,62 @@ def check_bootcv(run, E):
     del E.contracts[EV + '_internal_cv']
 
 
+def check_dual(run, E):
+    """eval_dual_bootstrap: per draw i (havoc) and repetition c three cross-validations are stored along the last axis --
+    slot 0: the two-factor resample with the drawn condition indices, slot 1: the data resampled over RDMs only (all condition
+    groups), slot 2: the data resampled over conditions only (drawn condition indices) -- each what _internal_cv returns for
+    that object with the caller's settings; draws with too few distinct groups are NaN in every slot; dof = min(groups) - 1"""
+    E.contracts[EV + '_internal_cv'] = Contract(EV + '_internal_cv', random=True, ret=('ndarray', 'ndarray'),
+                                                doc='havoc: any outcome of the random fold assignment (own contract above)')
+    ck = FuncCheck(E, run, 'C04', EV + 'eval_dual_bootstrap', 'k>1')
+
+    def mk(E):
+        models = E.sym_list('models', 'Model')
+        kw = dict(method=E.sym_val('method', tag='scalar'), fitter=E.sym_val('fitter'), k_pattern=E.sym_int('k_pattern'),
+                  k_rdm=E.sym_int('k_rdm'), N=E.sym_int('N'), n_cv=E.sym_int('n_cv'), pattern_descriptor=E.sym_val('pd', tag='scalar'),
+                  rdm_descriptor=E.sym_val('rd', tag='scalar'), use_correction=False)
+        assume = [kw['k_pattern'].z >= 2, kw['k_rdm'].z >= 1, kw['N'].z >= 2, kw['n_cv'].z >= 1, models.zlen() >= 1]
+        return [models, E.sym_obj('data', 'RDMs')], kw, assume
+
+    def post(ck, E, args, kw, p):
+        models, data = args
+        res = p.value
+        method, fitter, pd, rd = kw['method'], kw['fitter'], kw['pattern_descriptor'], kw['rdm_descriptor']
+        kp, kr, N, ncv = kw['k_pattern'], kw['k_rdm'], kw['N'].z, kw['n_cv'].z
+        ev, nc = res.fields['evaluations'], res.fields['noise_ceiling']
+        ok = isinstance(ev, ArrV) and len(ev.shape) == 5 and isinstance(nc, ArrV) and len(nc.shape) == 4
+        ck.ensure('post/result-arrays-are-(N,models,folds,n_cv,3)-and-(2,N,n_cv,3)', z3.BoolVal(ok) if not ok else z3.And(
+            ev.shape[0] == N, ev.shape[1] == models.zlen(), ev.shape[2] == kp.z * kr.z, ev.shape[3] == ncv,
+            z3.BoolVal(ev.shape[4] == 3), nc.shape[1] == N, nc.shape[2] == ncv, z3.BoolVal(nc.shape[3] == 3)))
+        if not ok:
+            return
+        a, c = z3.Int(fresh_name('smp')), z3.Int(fresh_name('rep'))
+        E.pc.append(z3.And(a >= 0, a < N, c >= 0, c < ncv))
+        p.pc = list(E.pc)
+        S, R, P = E.havoc(BS + 'bootstrap_sample', [data, rd, pd], SAMPLERS[BS + 'bootstrap_sample'], k=0, idxs=[a])
+        usable = z3.And(n_unique(E, R) >= kr.z, n_unique(E, P) >= 3 * kp.z)
+        all_p = E.lib['numpy.unique'](E, E.getitem(E.getattr(data, 'pattern_descriptors'), pd))
+        slots = [(S, P, 'two-factor resample'),
+                 (E.methods[('RDMs', 'subsample')](E, data, rd, R), all_p, 'resample over RDMs only'),
+                 (E.methods[('RDMs', 'subsample_pattern')](E, data, pd, P), P, 'resample over conditions only')]
+        for slot, (obj, pidx, what) in enumerate(slots):
+            evals, cvnc = E.havoc(EV + '_internal_cv', [models, obj, pd, rd, pidx, kp, kr, method, fitter], ('ndarray', 'ndarray'),
+                                  k=slot, idxs=[a, c])
+            ck.ensure_eq(f'post/slot-{slot}-evaluations-are-the-cross-validation-of-the-{what.replace(" ", "-")}',
+                         E.select(ev, (a, None, None, c, slot)), CaseV([(usable, E.getitem(evals, 0)), (z3.Not(usable), NAN)]))
+            ck.ensure_eq(f'post/slot-{slot}-noise-ceiling-of-the-same-object-and-folds',
+                         E.select(nc, (None, a, c, slot)), CaseV([(usable, cvnc), (z3.Not(usable), NAN)]))
+        g_r = n_groups(E, data, 'rdm_descriptors', rd)
+        g_p = n_groups(E, data, 'pattern_descriptors', pd)
+        ck.ensure('post/dof-is-resampled-groups-minus-one', E.as_int(res.fields['dof']) == z3.If(g_r < g_p, g_r, g_p) - 1)
+        ck.ensure_eq('post/cv_method', res.fields['cv_method'], 'dual_bootstrap')
+        ck.ensure_eq('post/method', res.fields['method'], method)
+        ck.ensure_eq('post/models', res.fields['models'], models)
+    ck.execute(mk, post=post, allow_raise=lambda *a: None)
+    yield ck
+    del E.contracts[EV + '_internal_cv']
+
+
 def run(run):
     E = engine(run)
     fails = []
@@ -492,6 +548,8 @@ def run(run):
     for ck in check_internal_cv(run, Ecv):
         fails += ck.failed
     for ck in check_bootcv(run, engine(run)):
+        fails += ck.failed
+    for ck in check_dual(run, engine(run)):
         fails += ck.failed
     finish_engine(E, run)
     bds = []
